@@ -38,6 +38,12 @@ func c02Gen(archs []wsp.Arch) func(AState, int) []AOp {
 		for _, d := range dedupAges([]int64{1, int64(archs[1].Step), archs[0].Ret()}, 1, 1<<40) {
 			ops = append(ops, AOp{Kind: "ADV", D: d})
 		}
+		if d == 1 {
+			// a metric that goes dormant for 12.7 years: every ring's first slot ends up more than 2^31/12 SLOTS behind
+			// (for steps up to 2 s) when the next write is propagated.  First in the list: its successor must be among
+			// the core states the cap lets through.
+			ops = append([]AOp{{Kind: "ADV", D: LongJump2}}, ops...)
+		}
 		return ops
 	}
 }
